@@ -345,7 +345,7 @@ func runC13(c c13Case) vh.Result {
 var c13 = vh.Define(&vh.Def[c13Case]{
 	Property: "C13", Name: "streammanager",
 	Rule: "fault sequences of 1-3 losses on successive connections of a Client under StreamManager.Run: each loss = how the established connection ends (TCP reset, graceful TCP close, </stream:stream> from the server, a system-shutdown stream error followed by the stream end) after 0-3 stanzas in each direction x the server refusing connections for 0 or 10-150 ms (listener closed, later reopened on the same port) x 0-3 reconnection attempts that fail during negotiation (connection cut at stream open / auth / bind) x resumption confirmed or refused; optionally the last reconnection is rejected with a SASL failure (permanent); oracle on the peer's accept log and sessions: after each loss exactly one further session is established (resumed when the server confirms), exactly failing-attempts+1 connections reach the server, the new session receives and sends, PostConnect ran once per session, after the permanent error no further attempt is made within 600 ms, Stop makes Run return; non-trivial = at least one loss after establishment",
-	Quick: 96, Thorough: 2500, Journal: true,
+	Quick: 64, Thorough: 2500, Journal: true,
 	Gen: genC13, Run: runC13,
 })
 
